@@ -8,3 +8,8 @@ class flag_saver {
   std::ostream& os_; std::ostream::fmtflags saved_; std::ostream::iostate state_;
 };
 bool show(int v) { flag_saver keep(std::cout); std::cout << std::hex << v << "\n"; return true; }
+
+#include <sstream>
+#include <fstream>
+bool dump(std::ostream& os, int v) { os << v << "\n"; return true; }
+bool save(std::ofstream& outfile, const std::string& body) { outfile.write(body.data(), static_cast<std::streamsize>(body.size())); outfile.close(); return outfile.good(); }
